@@ -154,12 +154,13 @@ func ruleIOSafe(c *Ctx) *RuleResult {
 			return relPkg(funcPkgPath(callee)) == "safeio"
 		}
 		type hit struct {
-			e    *callgraph.Edge
-			mode searchMode
+			e  *callgraph.Edge
+			st searchState
 		}
 		var hits []hit
-		reach.Run([]*ssa.Function{s.fn}, func(e *callgraph.Edge, m searchMode) {
-			if m == modeExtDynamic {
+		reach.Run([]*ssa.Function{s.fn}, func(e *callgraph.Edge, cur searchState) {
+			m := cur
+			if cur.mode == modeExtDynamic {
 				return
 			}
 			if p.InModule(e.Callee.Func) {
@@ -174,9 +175,9 @@ func ruleIOSafe(c *Ctx) *RuleResult {
 		}
 		reported := map[string]bool{}
 		for _, h := range hits {
-			path := reach.PathTo(searchState{h.e.Caller.Func, h.mode}, h.e)
+			path := reach.PathTo(h.st, h.e)
 			// find the boundary: last module function and the first external callee after it
-			lastMod, boundary := boundaryOf(p, reach, searchState{h.e.Caller.Func, h.mode}, h.e)
+			lastMod, boundary := boundaryOf(p, reach, h.st, h.e)
 			edgeKey := fnKey(lastMod) + "->" + fullName(boundary)
 			if why, ok := ioSinkExceptionEdges[edgeKey]; ok {
 				usedExceptions[edgeKey] = true
@@ -205,7 +206,7 @@ func ruleIOSafe(c *Ctx) *RuleResult {
 	if so := p.Func("safeio", "OpenFile"); so != nil {
 		found := false
 		reach := &Reach{p: p}
-		reach.Run([]*ssa.Function{so}, func(e *callgraph.Edge, m searchMode) {
+		reach.Run([]*ssa.Function{so}, func(e *callgraph.Edge, m searchState) {
 			if fullName(e.Callee.Func) == "os.OpenFile" {
 				found = true
 			}
